@@ -27,6 +27,7 @@ CW = 0.125  # complete_wait (exact binary fraction)
 TICK = 1 / 1024
 GAPS = [0.0, TICK, CW - TICK, CW, CW + TICK, 1.0]
 ENCODINGS = {"utf8": "utf-8", "wide": "euc-jp", "narrow": "iso8859-1"}
+WIDE_NAMES = ["euc-jp", "big5", "gbk", "uhc", "euc-kr", "gb2312"]
 
 
 # ---------------------------------------------------------------------------------------------
@@ -185,7 +186,15 @@ def tok_stray_utf8(rng: random.Random) -> dict:
 
 
 def tok_dbcs(rng: random.Random) -> dict:
-    a, b = rng.randrange(0xA1, 0xFF), rng.randrange(0xA1, 0xFF)
+    """A double-byte character: EUC style (both bytes >= 0xA1) or Big5/GBK/UHC style, whose lead byte is 0x81..0xFE and whose
+    trail byte may lie in the ASCII range 0x40..0x7E (documented name: the two bytes as a two-character string)."""
+    r = rng.random()
+    if r < 0.5:
+        a, b = rng.randrange(0xA1, 0xFF), rng.randrange(0xA1, 0xFF)
+    elif r < 0.85:
+        a, b = rng.randrange(0x81, 0xFF), rng.choice([0x40, 0x41, 0x5B, 0x5C, 0x7E, rng.randrange(0x40, 0x7F)])
+    else:
+        a, b = rng.randrange(0x81, 0xFF), rng.randrange(0x80, 0xA1)
     return {"k": "dbcs", "hex": bytes([a, b]).hex(), "exp": chr(a) + chr(b)}
 
 
@@ -267,9 +276,10 @@ def ref_decode(codes: list[int]) -> list:
 class _Sched:
     """One execution: one stream under one fragmentation schedule."""
 
-    def __init__(self, res: Result, enc: str, tokens: list[dict], sch: dict, log_sink: list | None) -> None:
+    def __init__(self, res: Result, enc: str, tokens: list[dict], sch: dict, log_sink: list | None, enc_name: str | None = None) -> None:
         self.res = res
         self.enc = enc
+        self.enc_name = enc_name or ENCODINGS[enc]
         self.tokens = tokens
         self.cw = float(sch.get("cw", CW))
         self.stream = b"".join(bytes.fromhex(t["hex"]) for t in tokens)
@@ -292,7 +302,7 @@ class _Sched:
         W.activate(w)
         box = None
         old_winch = signal.getsignal(signal.SIGWINCH)
-        urwid.util.set_encoding(ENCODINGS[self.enc])
+        urwid.util.set_encoding(self.enc_name)
         try:
             tty = W.SimTTY(w, "tty", 80, 24)
             tty.read_caps = list(sch.get("read_caps", []))
@@ -492,6 +502,8 @@ class _Sched:
                     )
                 else:
                     res.probe("token_table_checked")
+                    if any(t["k"] == "dbcs" and int(t["hex"][2:4], 16) < 0x80 for t in self.tokens):
+                        res.probe("double_byte_with_ascii_range_trail_checked")
 
 
 class InputEngine(Engine):
@@ -519,7 +531,7 @@ class InputEngine(Engine):
         "real": ["_posix_raw_display.Screen (start/stop, hook_event_loop, parse_input, get_input, _read_raw_input)", "escape.process_keyqueue / KeyqueueTrie", "all six event loops"],
         "stub": ["tty (fake descriptor, termios list)", "resize socket pair", "selectors / zmq poller / asyncio blocking step / trio fd wait", "clock"],
     }
-    required_probes = ("token_table_checked", "timeout_and_arrival_same_instant", "cut_inside_token")
+    required_probes = ("token_table_checked", "timeout_and_arrival_same_instant", "cut_inside_token", "double_byte_with_ascii_range_trail_checked")
     selftest_n = 1000
     reducible = ("schedules", "tokens")
 
@@ -565,7 +577,10 @@ class InputEngine(Engine):
             if rng.random() < 0.2:
                 sch["mode"] = "sync"
             schedules.append(sch)
-        return {"config": {"enc": enc}, "tokens": tokens, "schedules": schedules}
+        cfg = {"enc": enc}
+        if enc == "wide":
+            cfg["enc_name"] = rng.choice(WIDE_NAMES)
+        return {"config": cfg, "tokens": tokens, "schedules": schedules}
 
     def execute(self, scen: dict) -> Result:
         res = Result()
@@ -585,7 +600,7 @@ class InputEngine(Engine):
             off += len(t["hex"]) // 2
             tb.add(off)
         for sch in scen["schedules"]:
-            d = _Sched(res, enc, tokens, sch, sink).run()
+            d = _Sched(res, enc, tokens, sch, sink, scen["config"].get("enc_name")).run()
             h.update(d.encode())
             if any(c not in tb for c in sch.get("cuts", []) if 0 < c < off):
                 res.probe("cut_inside_token")
